@@ -17,10 +17,14 @@ from . import c02, c03, c05_tables, core, py2lean
 
 PROPS_MODULE = "NessaiVerif.Props.C05"
 MANIFEST = dict(
-    text="Lean theorems about what a completed run returns. Standard sampler (executable bookkeeping model of "
+    text="PARTIAL: the clause 'stored logL/logP equal the model evaluated at the sample' is oracle-only (only 'the sampler never "
+         "alters or invents a stored likelihood' is proved); the importance-sampler estimator theorems are consequences of the "
+         "model's definitions (definitional + algebra), tied to the code by the correspondence and the oracle; the result-table "
+         "theorem compares source expressions syntactically, value equality is checked on real runs. "
+         "Lean theorems about what a completed run returns. Standard sampler (executable bookkeeping model of "
          "populate_live_points / insert_live_point / consume_sample / finalise / nested_sampling_loop / birth_log_likelihoods, "
-         "any linearly ordered likelihood type, any candidate streams, any iteration cap, any number of checkpoint/resume "
-         "cycles): the number of nested samples is iterations + nlive after finalisation and exactly iterations otherwise, "
+         "any linearly ordered likelihood type, any candidate streams, any iteration cap, any chain of nested_sampling_loop calls "
+         "resumed at iteration boundaries, finished and capped runs run again included): the number of nested samples is iterations + nlive after finalisation and exactly iterations otherwise, "
          "which can only happen when the cap was reached; returned likelihoods are non-decreasing; every returned sample's "
          "birth likelihood logLs[it] exists and is strictly below its likelihood; the integral state saw exactly the returned "
          "likelihoods with live counts n..n,n,n-1..1, hence (with C02) the reported log-evidence and posterior weights are what "
@@ -40,8 +44,12 @@ MANIFEST = dict(
          "returned samples alone by the exact Rat models (quad and res drivers) and an independent mpmath evaluation (1e-9); "
          "every translated table entry is evaluated on the real sampler object and compared with the real dictionary / "
          "FlowSampler attribute; the oracle demands the property on every run (counts, order, births, recomputation, "
-         "logL/logP re-evaluated at every returned sample, dictionary = json result file = sampler attributes).",
-    note="PARTIAL: 'stored logL/logP equal the model evaluated at the sample' is a statement about user code; proved is only "
+         "logL/logP re-evaluated at every returned sample, dictionary = json result file = sampler attributes; every public quantity "
+         "read again in several orders - effective sample size first, dictionary twice, weights/ESS/weights - must still be the "
+         "recomputed value).",
+    note="Resuming is the identity on the modelled state only for checkpoints written at iteration boundaries (periodic / final); "
+         "checkpoints written inside consume_sample (signal window F4, checkpoint_on_training F25) are outside the theorems. "
+         "'stored logL/logP equal the model evaluated at the sample' is a statement about user code; proved is only "
          "that the sampler never alters or invents a stored likelihood (stored_values_are_evaluated_values_partial); the "
          "re-evaluation itself is oracle-only. Stopping test and candidate streams are inputs of the model. The information H "
          "behind the standard sampler's uncertainty is recomputed numerically (the code's recursion at 60 digits from the "
@@ -321,6 +329,70 @@ def tie_tables(ctx, fs, d, sampler_tag, pairs, iid, case):
     ctx.hist["table entries evaluated on a real sampler"] += len(vals)
 
 
+def kish_ess(log_w):
+    """Kish effective sample size (sum w)^2 / sum w^2 of exact log-weights (mp numbers, -inf allowed)"""
+    M = c02.M()
+    fin = [x for x in log_w if x != M.ninf]
+    if not fin:
+        return M.mpf(0)
+    top = max(fin)
+    a = M.fsum(M.exp(x - top) for x in fin)
+    b = M.fsum(M.exp(2 * (x - top)) for x in fin)
+    return a * a / b
+
+
+def repeated_reads(ctx, site, case, ns, weights_of, exact_z, z_ok, err_ok, exact_w):
+    """the public quantities read again in several orders (effective sample size first, then the weights, then the result
+    dictionary; the dictionary twice; weights, ESS, weights): every read must still be the value recomputed from the
+    returned samples — reads are idempotent and order-independent"""
+    ess_ref = kish_ess(exact_w)
+
+    def snap(label, z, e, w):
+        if z is None or e is None or w is None:
+            ctx.oracle_fail(site + ":reads-not-idempotent:missing", f"{label}: evidence / error / weights missing", case)
+            return
+        w = np.asarray(w, dtype=float)
+        if not z_ok(float(z)):
+            ctx.oracle_fail(site + ":reads-not-idempotent:log_evidence", f"{label}: log-evidence read as {float(z)!r}, the returned "
+                            f"samples give {float(exact_z)!r}", {**case, "read": label})
+        if not err_ok(float(e)):
+            ctx.oracle_fail(site + ":reads-not-idempotent:log_evidence_error", f"{label}: uncertainty read as {float(e)!r} is not the "
+                            "value recomputed from the returned samples", {**case, "read": label})
+        if len(w) != len(exact_w):
+            ctx.oracle_fail(site + ":reads-not-idempotent:log_posterior_weights", f"{label}: {len(w)} weights for {len(exact_w)} samples",
+                            {**case, "read": label})
+        else:
+            for i, x in enumerate(exact_w):
+                if not close(w[i], x):
+                    ctx.oracle_fail(site + ":reads-not-idempotent:log_posterior_weights",
+                                    f"{label}: log posterior weight {i} read as {w[i]!r} but the returned samples give {float(x)!r} "
+                                    "(an earlier read changed what later reads return)", {**case, "read": label, "sample": i})
+                    break
+
+    def ess_check(label, v):
+        if not close(float(v), ess_ref):
+            ctx.oracle_fail(site + ":reads-not-idempotent:effective_sample_size", f"{label}: posterior effective sample size read as "
+                            f"{float(v)!r}, Kish's formula on the recomputed weights gives {float(ess_ref)!r}", {**case, "read": label})
+
+    with quiet():
+        ess_check("ESS read first", ns.posterior_effective_sample_size)
+        snap("weights after reading the ESS", ns.log_evidence, ns.log_evidence_error, weights_of(ns))
+        d1 = ns.get_result_dictionary()
+        snap("result dictionary after reading the ESS", d1.get("log_evidence"), d1.get("log_evidence_error"), d1.get("log_posterior_weights"))
+        d2 = ns.get_result_dictionary()
+        d3 = ns.get_result_dictionary()
+        snap("result dictionary, second read", d2.get("log_evidence"), d2.get("log_evidence_error"), d2.get("log_posterior_weights"))
+        snap("result dictionary, third read", d3.get("log_evidence"), d3.get("log_evidence_error"), d3.get("log_posterior_weights"))
+        w_a = np.array(weights_of(ns), dtype=float, copy=True)
+        ess_check("ESS between two weight reads", ns.posterior_effective_sample_size)
+        w_b = np.asarray(weights_of(ns), dtype=float)
+        snap("weights, ESS, weights: last read", ns.log_evidence, ns.log_evidence_error, w_b)
+        if not same_array(w_a, w_b):
+            ctx.oracle_fail(site + ":reads-not-idempotent:log_posterior_weights", "two reads of the log posterior weights with a read of "
+                            "the effective sample size in between returned different arrays", {**case, "read": "weights, ESS, weights"})
+    ctx.hist["repeated / re-ordered reads checked"] += 6
+
+
 # ================================================================================================ standard sampler
 class Stop(Exception):
     pass
@@ -550,7 +622,7 @@ def check_standard(ctx, res):
     # ---------------------------------------------------------------- (b) recomputation from the returned samples alone
     M = c02.M()
     logZ, err = float(ns.log_evidence), float(ns.log_evidence_error)
-    logw = np.asarray(ns.state.log_posterior_weights, dtype=float)
+    logw = np.array(ns.state.log_posterior_weights, dtype=float, copy=True)
     shift = M.mpf(float(np.max(ll))) if len(ll) and np.isfinite(np.max(ll)) else M.mpf(0)
     sched = [n] * k + (list(range(n, 0, -1)) if fin else [])
     model_fields = None
@@ -611,6 +683,11 @@ def check_standard(ctx, res):
         if not (math.isfinite(info_real) and abs(M.mpf(info_real) - H) <= tol_h):
             ctx.oracle_fail(site + ":information-not-recomputable", f"reported information {info_real!r}, recomputed "
                             f"{float(H)!r}", case)
+        if model_fields is not None and len(W) == len(ll):
+            exact_w = [c02.log_tok(tok) for tok in W]
+            repeated_reads(ctx, site, case, ns, lambda o: o.state.log_posterior_weights, exactZ,
+                           lambda z: close(z, exactZ),
+                           lambda e: math.isfinite(e) and H >= 0 and abs(M.mpf(e) - want_err) <= tol_e, exact_w)
     # ---------------------------------------------------------------- (d) dictionary = file = sampler = FlowSampler
     checks = [
         ("log_evidence", same_number(d.get("log_evidence"), ns.log_evidence) and same_number(fs.log_evidence, ns.log_evidence)
@@ -838,7 +915,7 @@ def check_ins(ctx, res):
     M = c02.M()
     lw = np.asarray(samples["logL"], dtype=float) + np.asarray(samples["logW"], dtype=float)
     logZ, err = float(ns.log_evidence), float(ns.log_evidence_error)
-    logpw = np.asarray(ns.log_posterior_weights, dtype=float)
+    logpw = np.array(ns.log_posterior_weights, dtype=float, copy=True)
     finite = lw[np.isfinite(lw)]
     if np.any(np.isnan(lw)) or np.any(lw == np.inf):
         # NaN / +inf importance weights: the estimator is undefined (C03 / C08 own the weights); nothing to recompute
@@ -878,6 +955,9 @@ def check_ins(ctx, res):
                         ctx.oracle_fail(site + ":log_posterior_weights-not-recomputable", f"log posterior weight {i} is "
                                         f"{logpw[i]!r}, recomputed {float(x)!r}", {**case, "sample": i})
                         break
+            if d is not None:
+                repeated_reads(ctx, site, case, ns, lambda o: o.log_posterior_weights, mZ, lambda z: close(z, mZ),
+                               lambda e: close(e, mErr), mW)
     else:
         ctx.oracle_fail(site + ":weights-not-finite", "no finite importance weight among the returned samples", case)
     # ---------------------------------------------------------------- (d) dictionary = file = sampler = FlowSampler
